@@ -17,7 +17,7 @@ RULE = ("E1: full product of 10 session-key classes (generic, all-zero, last byt
         "bytes 00, CRC-16(key||version) low / both bytes 00, all FF; found by deterministic search with the reference CRC) x every ordered non-empty "
         "subset of {customer-key, ECC, update} blocks (15) x every subset of matching decryptors that opens >= 1 block, with every single deviation "
         "(thorough: pairs) over key selector 0..3, version {0,1,7F,FF}, security code, customer key present, content shape {one, encrypted "
-        "configuration, empty, payload with zero run}, and seed-derived extra keys; ('eph', ...) = every ECC-containing block order x decryptor subset with the ephemeral key forced into the classes X/Y/shared-x with leading 00 / 04 / FF bytes and scalars 1, n-1. Oracle: session key, auth blocks in file order (typed and equal "
+        "configuration, empty, payload with zero run}, and seed-derived extra keys; ('defaultseq', selectors) = every sequence of <= 3 distinct key selectors written one after another with the default (published, here test-substituted) recipient and read back with that selector's private key; ('eph', ...) = every ECC-containing block order x decryptor subset with the ephemeral key forced into the classes X/Y/shared-x with leading 00 / 04 / FF bytes and scalars 1, n-1. Oracle: session key, auth blocks in file order (typed and equal "
         "for opened blocks, byte-identical UnknownAuthBlock otherwise), components; configuration blob[:declared] == original. Distinct = case "
         "tuples; non-trivial = all.")
 ASSUMPTIONS = [
@@ -118,6 +118,12 @@ def cases(ctx):
                     if v[5] and ki != 0:
                         continue
                     yield ("rt", ki, oi, decs) + v
+    # default recipients: several files written one after another in one process WITHOUT an explicit ECC encryptor, each for
+    # another key selector (the published keys are replaced by test keys for the duration of the case)
+    from itertools import permutations as _perm
+    for n in (1, 2, 3):
+        for seq in _perm(range(4), n):
+            yield ("defaultseq",) + seq
     # ephemeral ECC key forced (through the randomness seam) into edge classes found with the reference curve
     for oi, order in enumerate(ORDERS):
         if "ecc" in order:
@@ -135,7 +141,45 @@ def code_of(ctx, i):
     return [ctx.sym("c02-code", 8), bytes(8), bytes([0x45] * 8)][i]
 
 
+def run_defaultseq(ctx, sels):
+    from ..ref import ec as EC
+    from ..ref import der as D
+    from bec2format.bec2file import EccEncryptor
+    o = Outcome("roundtrip-ok", True)
+    n = EC.P256.n
+    test_scalars = [1 + ctx.symint("c02-pub%d" % s_, n - 1) for s_ in range(4)]
+    saved = dict(EccEncryptor.DEFAULT_PUBLIC_KEYS)
+    oid = (1, 2, 840, 10045, 3, 1, 7)
+    try:
+        for s_ in range(4):
+            Q = EC.P256.mul(test_scalars[s_], EC.P256.g)
+            EccEncryptor.DEFAULT_PUBLIC_KEYS[s_] = D.spki(Q[0], Q[1], 32, oid)
+        for i, sel in enumerate(sels):
+            key = ctx.sym("c02-dkey-%d" % i)
+            comps = FX.model_components(ctx, "one")
+            bec = Bec2File(shapes.mk_bf3([("Configuration", "c02")], comps), [InitEccAuthBlock(sel)], key)
+            stream = io.StringIO()
+            with DetRandom("c02-default-%r-%d" % (sels, i)):
+                bec.write_file(stream)
+            try:
+                r = Bec2File.read_file(io.StringIO(stream.getvalue()), [EccDecryptor(sel, FX.priv_key(test_scalars[sel]))])
+            except Exception as e:
+                o.cls = "read-raises"
+                return o.viol("default|read-raises|%s" % type(e).__name__,
+                              "file #%d of the sequence (selector %d, default recipient) cannot be read back with that selector's private key after writing selectors %r: %r" % (
+                                  i, sel, sels[:i], e))
+            if r.session_key != key or FX.view(r.bf3file)[0][1] != comps[0]["content"]:
+                o.cls = "differs"
+                return o.viol("default|differs", "file #%d (selector %d) read back with another key/content" % (i, sel))
+    finally:
+        EccEncryptor.DEFAULT_PUBLIC_KEYS.clear()
+        EccEncryptor.DEFAULT_PUBLIC_KEYS.update(saved)
+    return o
+
+
 def run_case(ctx, case):
+    if case[0] == "defaultseq":
+        return run_defaultseq(ctx, tuple(case[1:]))
     preset = ()
     if case[0] == "eph":
         from . import c09
